@@ -232,6 +232,10 @@ Process(ev, i) ==
                \cup V(ev.have_pops => \A k \in 1..T : expTrip(k) \in ToSet(ev.ratio_prov[k]), "HistoryFaithful_ratio")
                \* ---- C08
                \cup V(ev.have_pops => \A k \in 1..T : expTrip(k) \in ToSet(ev.ratio_prov[k]), "EvidenceTerms")
+               \* exactly one term per iteration actually performed (counted by the spec from the events)
+               \cup V(ev.lens.log_norm_ratio = t3.iter /\ ev.lens.log_norm_ratio_var = t3.iter, "EvidenceTerms")
+               \cup V((gaux.hasRef /\ R.role = "resumed") => (ev.logz = gaux.ref.logz /\ ev.logzerr = gaux.ref.logzerr),
+                      "EvidenceIndependent")
                \cup V(ev.sum_ok, "EvidenceSum")
                \cup V(ev.err_ok /\ (ev.have_pops => \A k \in 1..T : ev.var_ok[k]), "ErrorIsRootSumVar")
                \cup V(R.role # "variant" \/ gaux.refLogz = 0 \/ ev.logz = gaux.refLogz, "EvidenceIndependent")
